@@ -6,7 +6,8 @@
 From Coq Require Import List Arith Lia ZArith QArith Qcanon.
 From GB Require Import Base.Field Base.FNum Base.Tables Model.Shell Model.MomentInt Model.Overlap Model.OneBody
   Proofs.CoreSumP Proofs.CoreBlockP Proofs.CoreDiffP Proofs.CoreExamplesP
-  Proofs.BlockMatP Proofs.AssembledP Proofs.AssembledOverlapP Proofs.AssembledHermP.
+  Proofs.BlockMatP Proofs.AssembledP Proofs.AssembledOverlapP Proofs.AssembledHermP
+  Proofs.AssembledSphP Proofs.AssembledSphOverlapP.
 Import ListNotations.
 Local Open Scope nat_scope.
 
@@ -77,5 +78,46 @@ Proof.
   destruct ex_index as (E1 & _).
   split; apply (momentum_integral_herm KQ' (KQ_field _ _ _ _ _) (KQ_apx _ _ _ _ _) (KQ_two _ _ _ _ _)
                   ex_basis ex_cart ex_wf ex_exps); rewrite E1; lia.
+Qed.
+
+(* ---- a MIXED basis: the d shell spherical (5 functions per segment), the p shell Cartesian, the s shell
+        spherical: 2*5 + 3 + 1 = 14 basis functions ---- *)
+Definition ex_sa_sph : shell Qc :=
+  mkShell Qc 2 (q 0 1) (q 0 1) (q 0 1) [q 1 2; q 2 1] [[q 1 1; q 1 2]; [q 1 3; q 1 1]] true [] [].
+Definition ex_sc_sph : shell Qc :=
+  mkShell Qc 0 (q 0 1) (q 0 1) (q 1 1) [q 5 4; q 1 4] [[q 1 1]; [q 1 2]] true [] [].
+Definition ex_mixed : list (shell Qc) := [ex_sa_sph; ex_sb; ex_sc_sph].
+
+Lemma ex_mixed_to_cart : map to_cart ex_mixed = ex_basis.
+Proof. reflexivity. Qed.
+
+Lemma ex_mixed_seg : seg_basis ex_mixed.
+Proof. intros s [<-|[<-|[<-|[]]]]; vm_compute; lia. Qed.
+Lemma ex_mixed_wf : basis_wf ex_mixed.
+Proof. intros s [<-|[<-|[<-|[]]]]; apply wf_shell_default; reflexivity. Qed.
+Lemma ex_mixed_exps : basis_exps KQ' ex_mixed ex_mixed.
+Proof.
+  intros sa sb Ha Hb. apply (ex_exps (to_cart sa) (to_cart sb)); rewrite <- ex_mixed_to_cart; now apply in_map.
+Qed.
+
+Theorem mixed_hypotheses_satisfiable :
+  seg_basis ex_mixed /\ basis_wf ex_mixed /\ basis_exps KQ' ex_mixed ex_mixed
+  /\ ototal KQ' ex_mixed = 14 /\ osize (sh_at KQ' ex_mixed 0) = 5 /\ ncomp (sh_at KQ' ex_mixed 0) = 6
+  /\ oidx KQ' ex_mixed 0 1 3 = 8 /\ oidx KQ' ex_mixed 1 0 2 = 12.
+Proof.
+  refine (conj ex_mixed_seg (conj ex_mixed_wf (conj ex_mixed_exps _))). vm_compute. repeat split.
+Qed.
+
+(* the transformation theorem at a lower-triangle position of the mixed basis: row = p_z (Cartesian shell 1),
+   column = segment 1, 4th spherical function of the d shell *)
+Example overlap_mixed_lower_ex :
+  nth 8 (nth 12 (overlap_integral KQ' ex_mixed None) []) (f0 KQ')
+  = dsum KQ' ex_sb ex_sa_sph 2 3 (fun c c' =>
+      nth (gidx KQ' ex_basis 0 1 c') (nth (gidx KQ' ex_basis 1 0 c) (overlap_integral KQ' ex_basis None) []) (f0 KQ')).
+Proof.
+  exact (overlap_mixed_is_cart_transformed KQ' (KQ_field _ _ _ _ _) (KQ_apx _ _ _ _ _) (KQ_two _ _ _ _ _)
+           ex_mixed ex_mixed_seg ex_mixed_wf ex_mixed_exps 1 0 0 2 1 3
+           ltac:(cbn; lia) ltac:(cbn; lia) ltac:(vm_compute; lia) ltac:(vm_compute; lia)
+           ltac:(vm_compute; lia) ltac:(vm_compute; lia)).
 Qed.
 End Ex.
